@@ -1439,6 +1439,8 @@ class SymEval:
             names.append(self.cur.module.resolve(n) or '')
         is_series = isinstance(v, Rec) and v.kind == 'series'
         is_frame = isinstance(v, Rec) and v.kind == 'frame'
+        if isinstance(v, Rat) and getattr(self, 'columns_are_series', False):
+            is_series = True       # table form: a per-sample scalar is a column of the table
         r = False
         for q in names:
             if q.endswith('pandas.Series') and is_series:
